@@ -122,12 +122,6 @@ func (ft *FT) calleeWrites(fn *ssa.Function, seen map[*ssa.Function]bool) (map[s
 						keys[ft.elemKey(sl.Elem())] = true
 					}
 				}
-			case *ssa.Send, *ssa.Select:
-				all = true
-			case *ssa.UnOp:
-				if x.Op == token.ARROW {
-					all = true
-				}
 			case ssa.CallInstruction:
 				if _, isGo := x.(*ssa.Go); isGo {
 					continue
@@ -224,6 +218,10 @@ func (ft *FT) callWritesSeen(c *ssa.CallCommon, seen map[*ssa.Function]bool) ([]
 	}
 	name, callee, _ := ft.callName(c)
 	if m := ft.eng.models[name]; m != nil {
+		if seen != nil && len(seen) > 0 && strings.HasPrefix(name, "(*sync.") {
+			// inside a callee: assumed lock-balanced, so the caller's view of HELD is unchanged
+			return nil, false
+		}
 		return m.writesCall(ft, c), false
 	}
 	if con := ft.eng.cons.Funcs[name]; con != nil && con.HasMod && (callee == nil || callee.Blocks == nil || con.Trusted) {
@@ -274,7 +272,7 @@ func (ft *FT) callWritesSeen(c *ssa.CallCommon, seen map[*ssa.Function]bool) ([]
 			return []string{"$next"}, false
 		}
 	}
-	if callee == nil && !c.IsInvoke() && ft.con != nil && ft.con.HasDynMod {
+	if ft.con != nil && ft.con.HasDynMod && ((callee == nil && !c.IsInvoke()) || ft.con.UnknownLikeDyn) {
 		ctx := ft.specCtx(ft.entry, ft.entry)
 		targets, all, err := ft.modTargets(ctx, ft.con.DynMod)
 		if err == nil && !all {
@@ -482,7 +480,7 @@ func (ft *FT) call(st *State, guard Term, c *ssa.CallCommon, preArgs []Term, ins
 			return results(st)
 		}
 	}
-	if callee == nil && !c.IsInvoke() && ft.con != nil && ft.con.HasDynMod {
+	if ft.con != nil && ft.con.HasDynMod && ((callee == nil && !c.IsInvoke()) || ft.con.UnknownLikeDyn) {
 		ctx := ft.specCtx(st, ft.entry)
 		targets, all, err := ft.modTargets(ctx, ft.con.DynMod)
 		if err != nil {
@@ -973,7 +971,7 @@ func (ft *FT) builtin(st *State, guard Term, b *ssa.Builtin, c *ssa.CallCommon, 
 		case *types.Map:
 			ft.guardedMap(c.Args[0], false, pos, guard)
 			r := ft.fresh("len", "Int")
-			ft.asserts = append(ft.asserts, "(assert "+eq(r, ft.mapLen(st, args[0]))+")")
+			ft.asserts = append(ft.asserts, "(assert "+eq(r, ft.mapLen(st, args[0], t))+")")
 			ft.assume("true", app("<=", "0", r))
 			return []Term{r}
 		case *types.Array:
